@@ -29,6 +29,13 @@ def gen_decls(rng, tree_nss):
             if rng.random() < 0.5:
                 d.reverse()
             return d
+    if r < 0.5:
+        # the reserved namespaces as default namespace / under another prefix: refused, `xml` is never remapped (seeded C13-7)
+        reserved = rng.choice([trees.XML_NS, "http://www.w3.org/2000/xmlns/"])
+        d = [[rng.choice(["", None, "", None, "x"]), reserved]]
+        if rng.random() < 0.5 and pool:
+            d.append(["p", rng.choice(pool)])
+        return d
     d = {}
     used = set()
     for _ in range(rng.choice([1, 1, 2, 3])):
